@@ -278,6 +278,16 @@ package bytecode
 //@   ensures frame: result.1 == nil ==> len(result.0) >= 2 && result.0[0] is StartSubroutine && (result.0[0] as StartSubroutine).Id == offset && (result.0[0] as StartSubroutine).Name == l.Name && (result.0[0] as StartSubroutine).EndOffset == offset + len(result.0) - 1 && result.0[len(result.0) - 1] is EndSubroutine && (result.0[len(result.0) - 1] as EndSubroutine).Name == l.Name
 //@   loop 1 invariant place: loffset == offset + 1 + len(bodyinsts) && state.variables != nil && l.Name == old(l.Name)
 
+// Items of a list (C01): one instruction per item, the leaf of the item's kind with its operands.
+//@ pred listableInst(x SearchInstruction, it ast.AstListable) := ((it is *ast.AstString) ==> x is MatchLiteral && (x as MatchLiteral).ToFind == (it as *ast.AstString).Value && (x as MatchLiteral).Not == (it as *ast.AstString).Not && (x as MatchLiteral).Caseless == (it as *ast.AstString).Caseless)
+//@    && ((it is *ast.AstCharacterClass) ==> x is MatchCharClass && (x as MatchCharClass).Class == (it as *ast.AstCharacterClass).ClassType && (x as MatchCharClass).Not == (it as *ast.AstCharacterClass).Not)
+//@    && ((it is *ast.AstRange) ==> x is MatchRange && (x as MatchRange).From == (it as *ast.AstRange).From.Value && (x as MatchRange).To == (it as *ast.AstRange).To.Value && !(x as MatchRange).Not)
+//@ func generateListable [C01]
+//@   noframe
+//@   requires l != nil
+//@   presumes wf: (((*l) is *ast.AstString) ==> ((*l) as *ast.AstString) != nil) && (((*l) is *ast.AstCharacterClass) ==> ((*l) as *ast.AstCharacterClass) != nil) && (((*l) is *ast.AstRange) ==> ((*l) as *ast.AstRange) != nil && ((*l) as *ast.AstRange).From != nil && ((*l) as *ast.AstRange).To != nil)
+//@   ensures one: result.1 == nil ==> len(result.0) == 1 && listableInst(result.0[0], *l)
+
 // Layout of a loop (C01): every mandatory iteration of an unnamed loop is the body's code
 // generated for the position where it is placed (P records the chunk starts); the repeating
 // part is StartLoop, the body generated for the position after it, StopLoop, with the two
